@@ -758,6 +758,12 @@ class Interp:
     def exec_ImportFrom(self, node, env):
         mod = self.lib.import_from(self, node, env)
         for a in node.names:
+            if a.name == '*':
+                continue
+            raw = mod.attrs.get(a.name) if isinstance(mod, ModuleV) else None
+            if isinstance(raw, self.lib.Unresolved):
+                env.assign(a.asname or a.name, raw)      # stays unresolved under the new name; an error only if used
+                continue
             env.assign(a.asname or a.name, self.lib.getattr_(self, mod, a.name))
 
     def exec_FunctionDef(self, node, env):
